@@ -26,6 +26,10 @@ ASSUMPTIONS = ["crash points are evaluations of user code (function bodies, cust
 HEADER = "From XV Require Import Model.Packer Model.PureFn.\n"
 
 
+class Interrupt(BaseException):
+    """a user's exception that is not an Exception (KeyboardInterrupt-like)"""
+
+
 class Boom(Exception):
     pass
 
@@ -293,25 +297,34 @@ def crash_oracle(ctx, which_workloads=None, max_k=40):
                              {"workload": w.name, "kind": v.name, "phase": phase}, "object changed", "object unchanged")
                     snap0 = fkinds.snapshot(v.objects)
                 ks = list(range(n)) if n <= max_k else sorted(set(int(i * (n - 1) / (max_k - 1)) for i in range(max_k)))
+                stop = False
                 for k in ks:
+                  # the user's code raises an Exception, or something that is not one (KeyboardInterrupt-like): quick alternates,
+                  # thorough runs both at every crash point
+                  for base in ((False, True) if ctx.thorough() else ((k + phase) % 2 == 1,)):
+                    tick.base = base
                     try:
                         run(k)
                         raised = False
-                    except fkinds.Ticker.Boom:
+                    except (fkinds.Ticker.Boom, fkinds.Ticker.Interrupt):
                         raised = True
                     except Exception as e:
                         raised = True     # the user's exception may be wrapped; what matters is the state afterwards
-                    ctx.count(("crash", w.name, v.name, phase, k), nontrivial=True)
+                    finally:
+                        tick.base = False
+                    ctx.count(("crash", w.name, v.name, phase, k, base), nontrivial=True)
                     ctx.stat("phase%d" % phase)
                     after = fkinds.snapshot(v.objects)
                     if after != snap0 or xt.is_debug_enabled() != dbg0:
                         ctx.fail("oracle", "crash:%s:%s:phase%d" % (w.name, v.name, phase),
                                  {"workload": w.name, "kind": v.name, "phase": ["forward", "backward", "double backward"][phase],
-                                  "crash_at_evaluation": k, "of": n},
+                                  "crash_at_evaluation": k, "of": n, "raised": "BaseException subclass" if base else "Exception subclass"},
                                  {"changed": _diff(snap0, after), "debug": xt.is_debug_enabled()},
                                  "objects hold the same tensor objects (identity, value, registration, order); debug flag unchanged")
-                        # put the object back so that later indices are judged on their own
+                        stop = True
                         break
+                  if stop:
+                    break
             tick.reset(None)
 
 
@@ -340,7 +353,7 @@ def linop_crash_oracle(ctx):
             k = calls[0]
             calls[0] += 1
             if crash[0] is not None and k == crash[0]:
-                raise Boom()
+                raise (Interrupt() if k % 2 == 1 else Boom())
             return torch.matmul(self.m, x.unsqueeze(-1)).squeeze(-1)
 
         def _getparamnames(self, prefix=""):
@@ -376,7 +389,7 @@ def linop_crash_oracle(ctx):
             for k in range(min(n, 25)):
                 try:
                     run(k)
-                except Exception:
+                except (Exception, Interrupt):
                     pass
                 ctx.count(("crash-linop", name, phase, k), nontrivial=True)
                 if id(op.m) != ident or op.m is not mat:
